@@ -16,7 +16,9 @@ import itertools
 import sys
 import textwrap
 
-sys.path.insert(0, "/verif")
+import os  # noqa: E402
+
+sys.path.insert(0, os.path.dirname(os.path.dirname(os.path.dirname(os.path.abspath(__file__)))))
 from engine.pyvc.registry import Registry, load_sidecars  # noqa: E402
 
 _DOMAIN = [list(range(-2, 12))]
